@@ -14,7 +14,10 @@ if [ -z "$props" ]; then
   props=$(python3 -c "import json;print(' '.join(c['property_id'] for c in json.load(open('MANIFEST.json'))['checks']))")
 fi
 fail=0
-if [ -n "$(git -C "$REPO" status --porcelain --untracked-files=no)" ]; then echo "selftest: /repo has uncommitted changes, refusing"; exit 2; fi
+# The self-test patches the repository it runs on. On the live /repo this is only allowed when
+# asked for explicitly (never from a background run: use `vp run --with-repo` and VERIF_REPO=$VP_RUN_REPO).
+if [ "$REPO" = "/repo" ] && [ "${VERIF_SELFTEST_LIVE:-}" != "1" ]; then echo "selftest: refusing to patch the live /repo (set VERIF_SELFTEST_LIVE=1, or run on a snapshot with VERIF_REPO)"; exit 2; fi
+if [ -n "$(git -C "$REPO" status --porcelain --untracked-files=no)" ]; then echo "selftest: $REPO has uncommitted changes, refusing"; exit 2; fi
 for p in $props; do
   out=$(./check $p quick 2>&1); rc=$?
   if [ $rc -ne 0 ]; then echo "SELFTEST-FAIL $p: alarm on unchanged tree"; echo "$out" | grep -v '^   ' | tail -5; fail=1; else echo "ok   $p unchanged: $(echo "$out" | tail -1)"; fi
